@@ -58,10 +58,13 @@ def parse_dep(s):
     return (name, pkg, parse_req(req))
 
 
-def show_case(index, root, locked=None):
-    """index: list of (pkg, ver, [deps]); root: [deps]; locked: [(pkg, ver)] or None"""
+def show_case(index, root, locked=None, root2=None):
+    """index: list of (pkg, ver, [deps]); root: [deps]; locked: [(pkg, ver)] or None;
+    root2: the root dependencies after an edit, or None"""
     s = "I:" + ";".join("%s@%s(%s)" % (p, show_ver(v), ",".join(show_dep(d) for d in ds)) for p, v, ds in index)
     s += " R:" + ",".join(show_dep(d) for d in root)
+    if root2 is not None:
+        s += " R2:" + ",".join(show_dep(d) for d in root2)
     if locked is not None:
         s += " L:" + ",".join("%s@%s" % (p, show_ver(v)) for p, v in locked)
     return s
@@ -70,7 +73,7 @@ def show_case(index, root, locked=None):
 def parse_case(line):
     index, root, locked = [], [], None
     for sec in line.split(" "):
-        if not sec:
+        if not sec or sec.startswith("R2:"):
             continue
         tag, body = sec[:2], sec[2:]
         if tag == "I:":
@@ -191,6 +194,13 @@ def lock_is_complete_valid(index, root, locked):
             if k not in asg or not satisfies(r, asg[k]):
                 return None
     return seen
+
+
+def root2_of(line):
+    for sec in line.split(" "):
+        if sec.startswith("R2:"):
+            return [parse_dep(d) for d in filter(None, sec[3:].split(","))]
+    return None
 
 
 def fields_of(line):
@@ -422,7 +432,7 @@ def req_met_by(rng, w):
     return ("^", M, m2, p2)
 
 
-def gen_universe(rng, npk_max, nver_max, with_lock):
+def gen_universe(rng, npk_max, nver_max, with_lock, with_edit=False):
     npk = rng.range(1, npk_max)
     pkgs = ["p%d" % i for i in range(npk)]
     vers = {}
@@ -483,7 +493,32 @@ def gen_universe(rng, npk_max, nver_max, with_lock):
                 for v in vers[p]:
                     if rng.chance(1, 3) and (p, klass(v)) not in {(q, klass(w)) for q, w in locked}:
                         locked.append((p, v))
-    return show_case(index, root, locked)
+    root2 = None
+    if with_edit:
+        root2 = list(root)
+        for _ in range(rng.range(1, 2)):
+            how = rng.below(5)
+            if how == 0 and root2:            # loosen a requirement (usually keeps the lock up to date)
+                i = rng.below(len(root2))
+                n, q, r = root2[i]
+                if r[0] == "^":
+                    r = ("^", r[1], r[2] if rng.chance(1, 2) else None, None)
+                else:
+                    r = ("^", r[1][0], r[1][1], None) if not r[1][3] else r
+                root2[i] = (n, q, r)
+            elif how == 1 and root2:          # another requirement on the same package
+                i = rng.below(len(root2))
+                n, q, r = root2[i]
+                root2[i] = (n, q, gen_req(rng, vers.get(q, [])))
+            elif how == 2 and root2:          # drop a dependency (its lock entries become stale)
+                root2.pop(rng.below(len(root2)))
+            elif how == 3:                    # add a dependency
+                free = [n for n in NAMES if n not in {d[0] for d in root2}]
+                if free:
+                    q = rng.choice(pkgs)
+                    root2.append((rng.choice(free), q, gen_req(rng, vers[q])))
+            # how == 4: unchanged
+    return show_case(index, root, locked, root2)
 
 
 GRID = [(0, 0, 1, ""), (0, 0, 2, ""), (0, 1, 0, ""), (0, 1, 1, ""), (0, 2, 0, ""), (1, 0, 0, ""), (1, 1, 0, ""),
@@ -565,6 +600,21 @@ def model_block(mline, mode):
     return fields_of(body[:end])
 
 
+SCRATCH = {"dir": None}
+
+
+def scratch_env():
+    """one scratch directory per check run, removed at the end whatever happened to the harness
+    processes (a process killed by a stack overflow cannot clean up after itself)"""
+    if SCRATCH["dir"] is None:
+        import atexit
+        import shutil
+        import tempfile
+        SCRATCH["dir"] = tempfile.mkdtemp(prefix="verif-c20-run-")
+        atexit.register(lambda: shutil.rmtree(SCRATCH["dir"], ignore_errors=True))
+    return {"TMPDIR": SCRATCH["dir"]}
+
+
 def run_robust(exe, cases, depth=0):
     """run_sharded, but a universe that kills the process (abort / stack overflow, which
     catch_unwind cannot stop) is reported as `res=ABORT` and the rest of its shard is re-run."""
@@ -572,7 +622,7 @@ def run_robust(exe, cases, depth=0):
     n = len(cases)
     if n == 0:
         return 0, [], ""
-    rc, out, err = core.run_sharded(exe, [], cases, shards=shards)
+    rc, out, err = core.run_sharded(exe, [], cases, shards=shards, env=scratch_env())
     if rc == 0 or depth > 40:
         return rc, out, err
     size = (n + shards - 1) // shards
@@ -597,7 +647,8 @@ def run_cases(ck, cases, exe_impl, exe_model, mode=None):
     minputs = []
     for c, o in zip(cases, impl_out):
         f = fields_of(o)
-        minputs.append(c + (" A:" + f.get("A", "") if f.get("res") == "ok" else ""))
+        minputs.append(c + (" A:" + f.get("A", "") if f.get("res") == "ok" else "")
+                       + (" B:" + f.get("A2", "") if f.get("res2") == "ok" and f.get("UP") == "0" else ""))
     rc2, model_out, e2 = core.run_sharded(exe_model, [], minputs)
     if rc2:
         ck.obligation("correspondence-run:model", "internal", False, "rc=%s %s" % (rc2, e2))
@@ -699,6 +750,34 @@ def compare(ck, cases, impl_out, model_out, mode):
                 ck.count("universes_in_known_lookup_class")
         elif res not in ("ok", "NoSolution"):
             disagree.append("resolver outcome " + res)
+        # 4. second phase: manifest edited, lock file kept (ManifestFile::lock's decision replayed)
+        r2 = root2_of(case)
+        if r2 is not None and "UP" in f and res == "ok" and not m.startswith("MODEL-ERROR"):
+            b = model_block(m, mode)
+            ck.hist("second_phase", "up-to-date:copy_from_lock" if f.get("UP") == "1" else "stale:resolve_with_lock:" + f.get("res2", "?"))
+            case2 = show_case(index, r2)
+            out2 = "res=%s A=%s E=%s SD=%s K=%s M=%s RL=skipped" % tuple(f.get(k, "") for k in ("res2", "A2", "E2", "SD2", "K2", "M2"))
+            finds2 = oracle(case2, out2)
+            for key, text in finds2:
+                ck.hist("oracle_findings", "phase2:" + key)
+                ck.violation("phase2:" + key, "after editing the manifest and keeping the lock file: " + text,
+                             {"case": case, "impl": a, "model": m})
+            if f.get("UP") != b.get("UP"):
+                disagree.append("is_lock_file_up_to_date: impl %s, model %s" % (f.get("UP"), b.get("UP")))
+            elif f.get("res2") == "ok":
+                if b.get("V2") != "1":
+                    ck.violation("phase2:invalid-answer", "the second assignment is rejected by valid_solution for the edited manifest",
+                                 {"case": case, "impl": a, "model": m})
+                for k in ("A2", "E2", "SD2", "K2", "M2"):
+                    if f.get(k) != b.get(k):
+                        disagree.append("%s differs (model[%s]): impl %s / model %s" % (k, mode, f.get(k, "")[:300], b.get(k, "")[:300]))
+            elif f.get("res2") == "NoSolution":
+                if mf.get("exists2") == "1":
+                    ck.violation("phase2:spurious-failure", "brute force finds a solution for the edited manifest but the resolver failed",
+                                 {"case": case, "impl": a, "model": m})
+            else:
+                disagree.append("second phase outcome " + f.get("res2", "?"))
+            other_keys = other_keys + [k for k, _ in finds2]
         if disagree:
             ck.hist("disagreements", len(disagree))
             if other_keys:
@@ -727,7 +806,8 @@ def run(ck):
     n = 3000 if ck.tier == "quick" else 40000
     for i in range(n):
         big = rng.chance(1, 6)
-        cases.append(gen_universe(rng.fork(), 5 if big else 3, 4 if big else 3, with_lock=rng.chance(1, 6)))
+        cases.append(gen_universe(rng.fork(), 5 if big else 3, 4 if big else 3, with_lock=rng.chance(1, 6),
+                                  with_edit=rng.chance(1, 4)))
     if ck.tier == "thorough":
         ex1 = exhaustive_one_package()
         ex2 = exhaustive_chain()
@@ -747,7 +827,9 @@ def run(ck):
     ck.coverage["rule"] = ("universe = synthetic on-disk index (1-5 packages, 1-5 versions each over majors 0-2 / minors, patches 0-3 / "
                            "prereleases alpha, rc1; 0-3 named dependencies per version with requirements M, M.m, M.m.p, M._.p, =v, =v-pre "
                            "aimed at or around existing versions; cycles and self-dependencies allowed) + root manifest with 0-3 index "
-                           "dependencies + optionally a lock file (a complete valid non-minimal solution, or random existing versions); "
+                           "dependencies + optionally a lock file (a complete valid non-minimal solution, or random existing versions) "
+                           "+ optionally an edit of the root manifest (loosen / change / drop / add a dependency) replayed against the "
+                           "kept lock file; 2/3 of the universes have a planted solution; "
                            "non-trivial = resolution succeeded with >= 2 dependency edges; distinct by exact text")
     ck.coverage["partial"] = ("pubgrub itself is validated answer by answer, not proved; git/path dependencies and the snapshot are not "
                               "modelled (index dependencies only)")
